@@ -284,6 +284,85 @@ impl WorldB {
                 self.ledger[ix].challenge_for = Some((cid, cinc));
                 self.deliver_to_server(ix, src, true, obs);
             }
+            K_FLOODSTEAL => {
+                // load on the table that binds tokens to addresses: 1500 other users present fresh valid tokens (fewer than the
+                // table holds, so nothing may be forgotten), then a token holder presents a token of its own that is bound to one
+                // of its addresses from another address and, if challenged there, completes the handshake
+                if self.flooded {
+                    return;
+                }
+                let connected = self.server.clients_id();
+                let cands: Vec<usize> = (0..self.tokens.len())
+                    .filter(|&i| {
+                        let t = &self.tokens[i];
+                        t.adv_owned && t.first_addr.is_some() && self.token_valid_now(i) && !connected.contains(&t.id) && t.issued_for_incarnation == self.incarnation
+                    })
+                    .collect();
+                if cands.is_empty() {
+                    return;
+                }
+                let tid = cands[op.a as usize % cands.len()];
+                let x = self.tokens[tid].first_addr.unwrap();
+                let y = if self.adv_addr != x { self.adv_addr } else { addr_v4(66, 66, 66, 67, 6667) };
+                if self.sessions.values().any(|s| s.addr == y) {
+                    return;
+                }
+                self.flooded = true;
+                obs.count("fault.token_flood");
+                let key = if self.secure { self.server_key } else { [0u8; 32] };
+                let noise_src = addr_v4(10, 250, 0, 1, 7000);
+                let now = Duration::from_millis(self.sv_ms);
+                let mut buf = [0u8; 1400];
+                for k in 0..1500u64 {
+                    let Ok(token) = ConnectToken::generate(now, self.protocol_id, 30, 1_000_000 + k, 5, self.public.clone(), None, &key) else { continue };
+                    let pkt = Packet::connection_request_from_token(&token);
+                    if let Ok(n) = pkt.encode(&mut buf, self.protocol_id, None) {
+                        let _ = self.server.process_packet(noise_src, &mut buf[..n]);
+                    }
+                }
+                // the token, from the other address
+                let pkt = Packet::connection_request_from_token(&self.tokens[tid].token);
+                let Ok(n) = pkt.encode(&mut buf, self.tokens[tid].token.protocol_id, None) else { return };
+                let dst = self.public[0];
+                let ix = self.adv_record(buf[..n].to_vec(), y, dst, Some(tid), false, obs);
+                let seen_before = self.challenges_seen.len();
+                self.deliver_to_server(ix, y, true, obs);
+                if self.challenges_seen.len() > seen_before && self.pend_model.get(&y).map(|p| p.0 == tid).unwrap_or(false) {
+                    obs.count("probe.flooded_table_forgot_a_binding");
+                    let (tseq, tdata, cid, cinc) = self.challenges_seen.last().cloned().unwrap();
+                    let mut td = [0u8; 300];
+                    td.copy_from_slice(&tdata);
+                    let pkt = Packet::Response { token_sequence: tseq, token_data: td };
+                    let ckey = self.tokens[tid].token.client_to_server_key;
+                    let Ok(n) = pkt.encode(&mut buf, self.tokens[tid].token.protocol_id, Some((1, &ckey))) else { return };
+                    let ix = self.adv_record(buf[..n].to_vec(), y, dst, Some(tid), false, obs);
+                    self.ledger[ix].challenge_for = Some((cid, cinc));
+                    self.deliver_to_server(ix, y, true, obs);
+                }
+            }
+            K_STALEHS => {
+                // a handshake reply the server once sealed for this client's token (a challenge, a denial from a moment when
+                // the server was full) reaches the client late, when it may long be connected
+                let slot = op.a as usize % ns;
+                let tid = self.slots[slot].tid;
+                let cands: Vec<usize> = (0..self.ledger.len())
+                    .filter(|&i| {
+                        let r = &self.ledger[i];
+                        r.tid == Some(tid) && matches!(r.producer, Producer::Server { .. }) && matches!(r.ptype, T_CHALLENGE | T_DENIED) && !r.certainly_bogus
+                    })
+                    .collect();
+                if cands.is_empty() || self.slots[slot].client.is_none() {
+                    return;
+                }
+                // denials first: they are the rarer kind
+                let denied: Vec<usize> = cands.iter().copied().filter(|&i| self.ledger[i].ptype == T_DENIED).collect();
+                let ix = if !denied.is_empty() && op.b % 2 == 0 { denied[(op.b / 2) as usize % denied.len()] } else { cands[(op.b / 2) as usize % cands.len()] };
+                obs.count("fault.stale_handshake_reply");
+                obs.abs.u64(0x690 + self.ledger[ix].ptype as u64);
+                self.ledger[ix].replayed = true;
+                let src = self.ledger[ix].src;
+                self.adv_deliver(ix, slot as u64 + 1, src, obs);
+            }
             K_CROSSRESP => {
                 // a token holder that answers from an address it holds a half-open entry at, under that entry's keys, echoing a
                 // challenge the server issued for somebody else (or for another of its own tokens)
